@@ -37,6 +37,18 @@ structure Ops (P E : Type) where
   /-- `subextproj` -/
   subp : E → E → P
 
+/-- `Curve { twisted, d, .. }` as point operations: the formulas translated from the source (Gen/Curves.lean) -/
+def curveOps {R : Type} [Add R] [Sub R] [Mul R] [Zero R] [One R] [NatCast R] (d : R) (tw : Bool) :
+    Ops (Ymq.Gen.Curves.Pt R) (Ymq.Gen.Curves.Ext R) where
+  zero := ⟨0, 1, 1⟩
+  toExt := Ymq.Gen.Curves.ecmToExtended d tw
+  toProj := Ymq.Gen.Curves.Ext.toProj
+  double := Ymq.Gen.Curves.ecmDouble d tw
+  dblext := Ymq.Gen.Curves.ecmDblext d tw
+  addext := Ymq.Gen.Curves.ecmAddext d tw
+  addp := Ymq.Gen.Curves.ecmAddextproj d tw
+  subp := Ymq.Gen.Curves.ecmSubextproj d tw
+
 section
 variable {P E X : Type}
 
